@@ -269,13 +269,17 @@ var c06Producers = []c06Producer{
 	{"string(array)", false, func(L int) string { return fmt.Sprintf("out := string([%q])", rep("a", L-4)) }},
 	{"string(error)", false, func(L int) string { return fmt.Sprintf("out := string(error(%q))", rep("a", L-9)) }},
 	{"string(map)", false, func(L int) string { return fmt.Sprintf("out := string({k: %q})", rep("a", L-7)) }},
-	{"format %s%s", false, func(L int) string { return fmt.Sprintf("out := format(\"%%s%%s\", %q, %q)", rep("a", L/2), rep("b", L-L/2)) }},
+	{"format %s%s", false, func(L int) string {
+		return fmt.Sprintf("out := format(\"%%s%%s\", %q, %q)", rep("a", L/2), rep("b", L-L/2))
+	}},
 	{"format %*d", false, func(L int) string { return fmt.Sprintf("out := format(\"%%*d\", %d, 7)", L) }},
 	{"format %-*d", false, func(L int) string { return fmt.Sprintf("out := format(\"%%-*d\", %d, 7)", L) }},
 	{"format %0Nd", false, func(L int) string { return fmt.Sprintf("out := format(\"%%0%dd\", 7)", L) }},
 	{"format %.Nf", false, func(L int) string { return fmt.Sprintf("out := format(\"%%.%df\", 1.5)", L-2) }},
 	{"format %q", false, func(L int) string { return fmt.Sprintf("out := format(\"%%q\", %q)", rep("a", L-2)) }},
-	{"format %x string", false, func(L int) string { return fmt.Sprintf("out := format(\"%%x\", %q)", rep("a", L/2)) + fmt.Sprintf(" + %q", rep("z", L%2)) }},
+	{"format %x string", false, func(L int) string {
+		return fmt.Sprintf("out := format(\"%%x\", %q)", rep("a", L/2)) + fmt.Sprintf(" + %q", rep("z", L%2))
+	}},
 	{"format %Nx string", false, func(L int) string { return fmt.Sprintf("out := format(\"%%%dx\", \"ab\")", L) }},
 	{"format %-Ns", false, func(L int) string { return fmt.Sprintf("out := format(\"%%-%ds\", \"ab\")", L) }},
 	{"format %v array", false, func(L int) string { return fmt.Sprintf("out := format(\"%%v\", [%q])", rep("a", L-4)) }},
@@ -287,7 +291,9 @@ var c06Producers = []c06Producer{
 	{"bytes + bytes", true, func(L int) string { return fmt.Sprintf("out := bytes(%d) + bytes(%d)", L/2, L-L/2) }},
 	{"bytes(n)", true, func(L int) string { return fmt.Sprintf("out := bytes(%d)", L) }},
 	{"bytes(string)", true, func(L int) string { return fmt.Sprintf("out := bytes(\"a\" + string(bytes(%d)))", L-1) }},
-	{"bytes += in loop", true, func(L int) string { return fmt.Sprintf("out := bytes(0); for i := 0; i < %d; i++ { out += bytes(1) }", L) }},
+	{"bytes += in loop", true, func(L int) string {
+		return fmt.Sprintf("out := bytes(0); for i := 0; i < %d; i++ { out += bytes(1) }", L)
+	}},
 }
 
 // producers whose operands are built at run time (no long literal in the source)
